@@ -375,8 +375,14 @@ def custom_files(spec):
             rk.dev_event(f"SenRdmaSend_{seq}{kind} [sync=g{seq}_s{f['rank']}_r{peer}_{j}] DmaO", TID_SEND,
                          [float(t), float(t), float(t), float(t), float(t + dur)],
                          {"Peer": str(peer), "Type": "MultiCast XSEG", "Bytes": "1024"})
+        # plain device slices that belong to no sequence (transfers and kernels), also between the parts
+        for j, (t, dur) in enumerate(f.get("plain", [])):
+            nm = [f"result_{j} DmaO", f"weights_{j} DmaI", f"mm_{j} Cmpt Exec"][j % 3]
+            rk.dev_event(nm, TID_SEND + 20 + j % 3, [float(t), float(t), float(t), float(t), float(t + dur)])
         rk.host_event("AIU Roundtrip", 77, 0.0, 900.0)
-        files[f"job{k}_rank_{f['rank']}.json"] = rk.event_list()
+        # dirs: one directory per job, the rank's file name is the same in each of them
+        fn = f"job{k}/rank_{f['rank']}.json" if spec.get("dirs") else f"job{k}_rank_{f['rank']}.json"
+        files[fn] = rk.event_list()
     return files
 
 
@@ -477,8 +483,13 @@ def gen_e2e(ctx: Ctx):
                 times.add(t)
                 sends.append([rng.choice(seqs), t, rng.choice([1, 5, 20, 60]), rng.choice([0, 1, 2, 3])])
             sends.sort(key=lambda s: s[1])
-            fl.append({"rank": r, "sends": sends})
-        yield {"kind": "e2e", "gen": "custom", "spec": {"files": fl}}
+            plain = []
+            for _p in range(rng.randint(0, 4)):
+                t = rng.choice([x for x in range(10, 600) if x not in times])
+                times.add(t)
+                plain.append([t + 0.5, rng.choice([1, 5, 20])])
+            fl.append({"rank": r, "sends": sends, "plain": plain})
+        yield {"kind": "e2e", "gen": "custom", "spec": {"files": fl, "dirs": rng.random() < 0.4}}
 
 
 # ---------------------------------------------------------------------------------------------
